@@ -24,6 +24,12 @@ def _hook(event, args):
                  (isinstance(flags, int) and flags & (os.O_WRONLY | os.O_RDWR | os.O_CREAT | os.O_TRUNC | os.O_APPEND))
             if not wr or not isinstance(path, (str, bytes)):
                 return
+            # opening an existing file read-write ('r+') changes nothing by itself: logged as a weaker
+            # event, judged only together with the content/stat snapshot
+            destructive = (isinstance(mode, str) and any(c in mode for c in "wax")) or \
+                (isinstance(flags, int) and flags & (os.O_WRONLY | os.O_CREAT | os.O_TRUNC | os.O_APPEND))
+            if not destructive:
+                event = "open-readwrite"
             paths = [path]
         elif event in WRITE_EVENTS:
             paths = [a for a in args[:2] if isinstance(a, (str, bytes)) or hasattr(a, "__fspath__")]
